@@ -7,6 +7,7 @@ import (
 	"runtime"
 	"strings"
 	"sync"
+	"sync/atomic"
 	"testing"
 	"time"
 
@@ -555,6 +556,449 @@ func runC29bc(r *vf.Run, env *g9mesh.Env, pool []*keys.Identity, h *c29hist, jr 
 	r.Sample(map[string]any{"case": h.Idx, "history": h.desc(), "callbacks": len(dl), "neighbours": len(eps)})
 }
 
+// ---------- (d) scripted overlap of release / removal with a delivery in progress ----------
+
+// c29act is one operation started while a delivery to the round's target
+// subscription is blocked inside a handler.
+type c29act struct {
+	Kind string // "rel" (Release of subscription Sub) or "rmh" (remove func of handler H)
+	Sub  int
+	H    int
+}
+
+func (a c29act) String() string {
+	if a.Kind == "rel" {
+		return fmt.Sprintf("rel(s%d)", a.Sub)
+	}
+	return fmt.Sprintf("rmh(s%d h%d)", a.Sub, a.H)
+}
+
+type c29ovlRound struct {
+	Target int    // subscription whose delivery is blocked
+	Source string // "sub-publish", "fs-publish", "feed"
+	Acts   []c29act
+	Extra  int // further messages for the channel issued while the delivery is blocked
+}
+
+func (o c29ovlRound) String() string {
+	return fmt.Sprintf("{block s%d via %s; %v; extra%d}", o.Target, o.Source, o.Acts, o.Extra)
+}
+
+type c29ovl struct {
+	Idx    int
+	Chans  []string // channel of every subscription
+	NH     []int    // handlers of every subscription (handler ids are global, creation order)
+	Peers  int
+	Rounds []c29ovlRound
+}
+
+func (o *c29ovl) desc() string {
+	return fmt.Sprintf("overlap subs=%v handlers=%v peers=%d rounds=%v", o.Chans, o.NH, o.Peers, o.Rounds)
+}
+
+func genC29ovl(rng *rand.Rand, idx int) *c29ovl {
+	o := &c29ovl{Idx: idx, Peers: rng.IntN(3)}
+	ns := 1 + rng.IntN(3)
+	type hst struct {
+		sub  int
+		live bool
+	}
+	var hs []hst
+	subLive := make([]bool, ns)
+	for s := 0; s < ns; s++ {
+		o.Chans = append(o.Chans, c29chans[rng.IntN(2)])
+		nh := 2 + rng.IntN(4)
+		if s > 0 && rng.IntN(4) == 0 {
+			nh = 1
+		}
+		o.NH = append(o.NH, nh)
+		subLive[s] = true
+		for k := 0; k < nh; k++ {
+			hs = append(hs, hst{s, true})
+		}
+	}
+	liveOf := func(s int) []int {
+		var l []int
+		for k, h := range hs {
+			if h.sub == s && h.live {
+				l = append(l, k)
+			}
+		}
+		return l
+	}
+	for nr := 1 + rng.IntN(4); nr > 0; nr-- {
+		var cand []int
+		for s := range subLive {
+			if subLive[s] && len(liveOf(s)) > 0 {
+				cand = append(cand, s)
+			}
+		}
+		if len(cand) == 0 {
+			break
+		}
+		rd := c29ovlRound{Target: cand[rng.IntN(len(cand))], Extra: rng.IntN(4)}
+		switch k := rng.IntN(3); {
+		case k == 0 && o.Peers > 0:
+			rd.Source = "feed"
+		case k == 1:
+			rd.Source = "fs-publish"
+		default:
+			rd.Source = "sub-publish"
+		}
+		live := liveOf(rd.Target)
+		rng.Shuffle(len(live), func(i, j int) { live[i], live[j] = live[j], live[i] })
+		switch k := rng.IntN(10); {
+		case k < 4 || len(live) < 2: // release during the delivery
+			rd.Acts = append(rd.Acts, c29act{Kind: "rel", Sub: rd.Target})
+		case k < 7: // remove other handlers during the delivery (at least one stays to be blocked)
+			for _, h := range live[:1+rng.IntN(len(live)-1)] {
+				rd.Acts = append(rd.Acts, c29act{Kind: "rmh", Sub: rd.Target, H: h})
+			}
+		default: // both, concurrently
+			rd.Acts = append(rd.Acts, c29act{Kind: "rel", Sub: rd.Target}, c29act{Kind: "rmh", Sub: rd.Target, H: live[0]})
+		}
+		// sometimes also release another subscription (it shares no lock with
+		// the blocked delivery unless it is on the same channel's message)
+		if rng.IntN(4) == 0 {
+			for s := range subLive {
+				if subLive[s] && s != rd.Target {
+					rd.Acts = append(rd.Acts, c29act{Kind: "rel", Sub: s})
+					break
+				}
+			}
+		}
+		rng.Shuffle(len(rd.Acts), func(i, j int) { rd.Acts[i], rd.Acts[j] = rd.Acts[j], rd.Acts[i] })
+		for _, a := range rd.Acts {
+			if a.Kind == "rel" {
+				subLive[a.Sub] = false
+			} else {
+				hs[a.H].live = false
+			}
+		}
+		o.Rounds = append(o.Rounds, rd)
+	}
+	return o
+}
+
+// ovlGate blocks, while armed, the first callback of a handler of the target
+// subscription that is not in the pass set, until the harness opens it.
+type ovlGate struct {
+	mu      sync.Mutex
+	armed   bool
+	target  int
+	pass    map[int]bool
+	entered chan struct{}
+	open    chan struct{}
+	blocked int // handler that is (was) blocked
+}
+
+func (g *ovlGate) arm(target int, pass map[int]bool) {
+	g.mu.Lock()
+	g.armed, g.target, g.pass, g.blocked = true, target, pass, -1
+	g.entered, g.open = make(chan struct{}), make(chan struct{})
+	g.mu.Unlock()
+}
+
+func (g *ovlGate) enter(sub, h int) {
+	g.mu.Lock()
+	if !g.armed || sub != g.target || g.pass[h] {
+		g.mu.Unlock()
+		return
+	}
+	g.armed = false
+	g.blocked = h
+	open := g.open
+	close(g.entered)
+	g.mu.Unlock()
+	<-open
+}
+
+func runC29ovl(r *vf.Run, env *g9mesh.Env, pool []*keys.Identity, o *c29ovl, jr *journal) {
+	jr.begin(100000+o.Idx, o.desc())
+	defer jr.end(100000 + o.Idx)
+	rng := rand.New(rand.NewPCG(uint64(o.Idx)+4177, r.Seed()))
+	perm := rng.Perm(len(pool))
+	V, F := pool[perm[0]], pool[perm[1]]
+	m, err := g9mesh.NewMesh(env, []*keys.Identity{V})
+	if err != nil {
+		r.Inconclusive("NewMesh: " + err.Error())
+		return
+	}
+	defer m.Close()
+	m.Adopt()
+	node := m.Nodes[0]
+	gate := &ovlGate{}
+	var subs []*c29sub
+	var hands []*c29handler
+	wit := func(extra map[string]any) map[string]any {
+		w := map[string]any{"scenario": o.desc(), "case": o.Idx}
+		for k, v := range extra {
+			w[k] = v
+		}
+		return w
+	}
+	fail := func() { r.Case(o.desc(), false) }
+	quiesce := func(stage string) bool {
+		ok, busy := m.WaitQuiescent(watchdog)
+		r.Count("quiescence_waits", 1)
+		if !ok {
+			r.Inconclusive(fmt.Sprintf("C29 overlap case %d: no quiescence at %s (%s)", o.Idx, stage, busy))
+		}
+		return ok
+	}
+	node.Exec()
+	for s, ch := range o.Chans {
+		sh, err := node.FS.AddSubscription(m.Ctx, V.Priv, ch)
+		if err != nil {
+			r.Inconclusive("AddSubscription: " + err.Error())
+			fail()
+			return
+		}
+		subs = append(subs, &c29sub{ch: ch, h: sh})
+		for k := 0; k < o.NH[s]; k++ {
+			hid := len(hands)
+			base := m.Handler(0, s, hid, ch)
+			s := s
+			rm := sh.AddHandler(func(msg pubsub.Message) {
+				base(msg) // logs the callback (logical time at entry)
+				gate.enter(s, hid)
+			})
+			hands = append(hands, &c29handler{sub: s, remove: rm})
+		}
+	}
+	type endpoint struct {
+		d   *g9mesh.Duplex
+		end *g9mesh.End
+	}
+	var eps []endpoint
+	for k := 0; k < o.Peers; k++ {
+		d, end := m.Attach(0, pool[perm[2+k]].ID, rng.IntN(2) == 0)
+		eps = append(eps, endpoint{d, end})
+	}
+	nmsg := 0
+	payload := func(ch string) string {
+		nmsg++
+		return fmt.Sprintf("o%d/m%d/%s", o.Idx, nmsg, ch)
+	}
+	mkPacket := func(ch string) *floodsub.Packet {
+		msg, _, err := pubmessage.NewPubMessage(ch, F.Priv, hash.HashType_HashType_SHA256, []byte(payload(ch)))
+		if err != nil {
+			panic(err)
+		}
+		return &floodsub.Packet{Publish: []*peer.SignedMsg{msg}}
+	}
+	live := func() map[string]bool {
+		l := map[string]bool{}
+		for _, s := range subs {
+			if s.releasedAt == 0 {
+				l[s.ch] = true
+			}
+		}
+		return l
+	}
+	checkViews := func(stage string) {
+		want := live()
+		for i, ep := range eps {
+			got := replayView(ep.d.AB.Frames())
+			r.Count("neighbour_views_checked", 1)
+			r.Distinct("view_states", setStr(want)+"/"+setStr(got))
+			for ch := range got {
+				if !want[ch] {
+					r.Violation("floodsub/peer-not-told-unsubscribe",
+						fmt.Sprintf("quiescent node (%s): neighbour %d was told the node wants channel %q and never told otherwise, but the node has no live subscription to it (live=%s)", stage, i, ch, setStr(want)),
+						wit(map[string]any{"neighbour": i, "view": setStr(got), "live": setStr(want), "subscription_frames": subFrames(ep.d.AB.Frames())}))
+				}
+			}
+			for ch := range want {
+				if !got[ch] {
+					r.Violation("floodsub/peer-not-told-subscribe",
+						fmt.Sprintf("quiescent node (%s): neighbour %d was never told about live channel %q (view=%s)", stage, i, ch, setStr(got)),
+						wit(map[string]any{"neighbour": i, "view": setStr(got), "live": setStr(want), "subscription_frames": subFrames(ep.d.AB.Frames())}))
+				}
+			}
+		}
+	}
+	if !quiesce("setup") {
+		fail()
+		return
+	}
+	checkViews("after setup")
+	// send issues one message for channel ch from the given source; local
+	// publishes run in their own goroutine (they return only after the local
+	// hand-over was started, and may wait for the router).
+	var sendWG sync.WaitGroup
+	send := func(source string, target int, ch string) {
+		r.Count("overlap_messages_"+source, 1)
+		switch source {
+		case "feed":
+			_ = eps[rng.IntN(len(eps))].end.WritePacket(mkPacket(ch))
+		case "fs-publish":
+			pay := payload(ch)
+			sendWG.Add(1)
+			m.Go(func() {
+				defer sendWG.Done()
+				_ = node.FS.(g9mesh.Publisher).Publish(m.Ctx, ch, F.Priv, []byte(pay))
+			})
+		default:
+			pay := payload(ch)
+			sh := subs[target].h
+			sendWG.Add(1)
+			m.Go(func() {
+				defer sendWG.Done()
+				_ = sh.Publish([]byte(pay))
+			})
+		}
+	}
+	waitCh := func(c <-chan struct{}) bool {
+		select {
+		case <-c:
+			return true
+		case <-time.After(watchdog):
+			return false
+		}
+	}
+	established := 0
+	for ri, rd := range o.Rounds {
+		ch := o.Chans[rd.Target]
+		pass := map[int]bool{}
+		for _, a := range rd.Acts {
+			if a.Kind == "rmh" {
+				pass[a.H] = true
+			}
+		}
+		gate.arm(rd.Target, pass)
+		send(rd.Source, rd.Target, ch)
+		if !waitCh(gate.entered) {
+			r.Inconclusive(fmt.Sprintf("C29 overlap case %d round %d: no handler of the target subscription was entered within the watchdog", o.Idx, ri))
+			close(gate.open)
+			fail()
+			return
+		}
+		// a delivery is now in progress (a callback of the target subscription
+		// has started and not returned): start the operations
+		type running struct {
+			act  c29act
+			goid atomic.Int64
+			done atomic.Bool
+			fin  chan struct{}
+		}
+		runs := make([]*running, len(rd.Acts))
+		for i, a := range rd.Acts {
+			rn := &running{act: a, fin: make(chan struct{})}
+			runs[i] = rn
+			m.Go(func() {
+				defer close(rn.fin)
+				rn.goid.Store(g9mesh.CurGoid())
+				if rn.act.Kind == "rel" {
+					subs[rn.act.Sub].h.Release()
+					subs[rn.act.Sub].releasedAt = m.Clk.Tick()
+				} else {
+					hands[rn.act.H].remove()
+					hands[rn.act.H].removedAt = m.Clk.Tick()
+				}
+				rn.done.Store(true)
+			})
+		}
+		// every operation has returned or is parked on a floodsub lock
+		deadline := time.Now().Add(watchdog)
+		for _, rn := range runs {
+			for {
+				if rn.done.Load() {
+					r.Count("overlap_"+rn.act.Kind+"_returned_during_delivery", 1)
+					break
+				}
+				if id := rn.goid.Load(); id != 0 && m.GoroutineParkedOnMutex(id) {
+					r.Count("overlap_"+rn.act.Kind+"_parked_on_floodsub_lock", 1)
+					break
+				}
+				if time.Now().After(deadline) {
+					r.Inconclusive(fmt.Sprintf("C29 overlap case %d round %d: %s neither returned nor parked on a lock within the watchdog", o.Idx, ri, rn.act))
+					close(gate.open)
+					fail()
+					return
+				}
+				time.Sleep(time.Millisecond)
+			}
+		}
+		established++
+		for k := 0; k < rd.Extra; k++ {
+			src := rd.Source
+			if k%2 == 1 && len(eps) > 0 {
+				src = "feed"
+			}
+			if src == "sub-publish" {
+				src = "fs-publish" // the target may be released by now: Publish on it is not exercised
+			}
+			send(src, rd.Target, ch)
+		}
+		close(gate.open)
+		for _, rn := range runs {
+			if !waitCh(rn.fin) {
+				r.Inconclusive(fmt.Sprintf("C29 overlap case %d round %d: %s did not return after the delivery ended (watchdog)", o.Idx, ri, rn.act))
+				fail()
+				return
+			}
+		}
+		sent := make(chan struct{})
+		go func() { sendWG.Wait(); close(sent) }()
+		if !waitCh(sent) {
+			r.Inconclusive(fmt.Sprintf("C29 overlap case %d round %d: publish calls did not return (watchdog)", o.Idx, ri))
+			fail()
+			return
+		}
+		r.Count("overlap_rounds", 1)
+		r.Distinct("overlap_shapes", fmt.Sprintf("%s/%v/h%d", rd.Source, rd.Acts, o.NH[rd.Target]))
+		if !quiesce(fmt.Sprintf("after overlap round %d", ri)) {
+			fail()
+			return
+		}
+		checkViews(fmt.Sprintf("after overlap round %d %s", ri, rd))
+	}
+	for _, s := range subs {
+		if s.releasedAt == 0 {
+			s.h.Release()
+			s.releasedAt = m.Clk.Tick()
+		}
+	}
+	if !quiesce("after final releases") {
+		fail()
+		return
+	}
+	checkViews("after releasing every subscription")
+	for _, ep := range eps {
+		for _, ch := range c29chans[:2] {
+			_ = ep.end.WritePacket(mkPacket(ch))
+		}
+	}
+	if !quiesce("after final feed") {
+		fail()
+		return
+	}
+	dl := m.Deliveries()
+	for _, d := range dl {
+		hd := hands[d.Handler]
+		s := subs[hd.sub]
+		r.Count("handler_callbacks", 1)
+		if !strings.HasSuffix(d.Data, "/"+s.ch) {
+			r.Violation("floodsub/handed-wrong-channel", fmt.Sprintf("handler of %q was handed %q", s.ch, d.Data), wit(nil))
+		}
+		if hd.removedAt != 0 && d.T > hd.removedAt {
+			r.Violation("floodsub/callback-after-handler-removed",
+				fmt.Sprintf("handler %d (channel %s) was invoked at logical time %d, after its remove function had returned at %d (removal overlapped a delivery that was blocked in another handler)", d.Handler, s.ch, d.T, hd.removedAt), wit(map[string]any{"delivery": d}))
+		}
+		if s.releasedAt != 0 && d.T > s.releasedAt {
+			r.Violation("floodsub/callback-after-release",
+				fmt.Sprintf("handler %d of subscription %d (channel %s) was invoked at logical time %d, after Release had returned at %d (Release overlapped a delivery that was blocked in another handler)", d.Handler, hd.sub, s.ch, d.T, s.releasedAt), wit(map[string]any{"delivery": d}))
+		}
+	}
+	nontrivial := established > 0 && len(dl) > 0
+	r.Case(o.desc(), nontrivial)
+	r.Count("overlap_scenarios", 1)
+	if o.Idx < 2 {
+		r.Sample(map[string]any{"case": o.Idx, "scenario": o.desc(), "callbacks": len(dl)})
+	}
+}
+
 func subFrames(fs []*g9mesh.Frame) []string {
 	var out []string
 	for _, f := range fs {
@@ -578,7 +1022,7 @@ func subFrames(fs []*g9mesh.Frame) []string {
 func TestC29(t *testing.T) {
 	r := vf.Start(t, "C29", vf.Exploration)
 	defer r.Finish()
-	r.SetRule("(a) opener rule: two real pubsub controllers (stub router, captured EstablishLinkWithPeer reference handler) are handed the two ends of one link as fake mounted links, for pairs of distinct peer ids (real Ed25519 ids; ids sharing all but the last byte; one id a prefix of the other; leading-zero ids; one-bit mutations), delivered concurrently in opposite orders; at controller quiescence (no tracker goroutine alive, Execute loops parked) OpenMountedStream calls over both ends must total exactly 1. (b)+(c): histories of exec / subscribe / add-handler / remove-handler / release / add-peer-stream on one real FloodSub node, each operation raced with 0-6 authentic publishes written by harness-driven neighbours, gaps none / scheduler yields / exact quiescence (every fifth history is a pure burst); (b) a callback logged at logical time t > removeReturned(handler) or t > releaseReturned(subscription) is a violation (callbacks run under the subscription mutex that remove/release take); (c) at every exact quiescent point each neighbour's replayed view (Subscribe true/false packets on the tap) equals the node's set of channels with a live subscription; finally everything is released, views must be empty and a last feed must reach no handler. Non-trivial: (a) exactly one open observed; (b,c) history with at least one neighbour, one subscription and one callback.")
+	r.SetRule("(a) opener rule: two real pubsub controllers (stub router, captured EstablishLinkWithPeer reference handler) are handed the two ends of one link as fake mounted links, for pairs of distinct peer ids (real Ed25519 ids; ids sharing all but the last byte; one id a prefix of the other; leading-zero ids; one-bit mutations), delivered concurrently in opposite orders; at controller quiescence (no tracker goroutine alive, Execute loops parked) OpenMountedStream calls over both ends must total exactly 1. (b)+(c): histories of exec / subscribe / add-handler / remove-handler / release / add-peer-stream on one real FloodSub node, each operation raced with 0-6 authentic publishes written by harness-driven neighbours, gaps none / scheduler yields / exact quiescence (every fifth history is a pure burst); (b) a callback logged at logical time t > removeReturned(handler) or t > releaseReturned(subscription) is a violation (callbacks run under the subscription mutex that remove/release take); (c) at every exact quiescent point each neighbour's replayed view (Subscribe true/false packets on the tap) equals the node's set of channels with a live subscription; finally everything is released, views must be empty and a last feed must reach no handler. (d) scripted overlap: 1-3 subscriptions with 1-5 handlers each, 0-2 neighbours, 1-4 rounds; per round a message (subscription Publish / FloodSub.Publish / neighbour packet) is delivered to a target subscription and the first callback of a handler that is not about to be removed blocks on a harness gate; while it is blocked, Release of the target and / or the remove functions of other handlers of the target (sometimes also Release of another subscription) are started in their own goroutines; once each has returned or is parked in sync.Mutex.Lock below a floodsub frame (goroutine-state inspection) 0-3 further messages are issued and the gate is opened; oracle as in (b), views as in (c). Non-trivial: (a) exactly one open observed; (b,c) history with at least one neighbour, one subscription and one callback; (d) at least one overlap was established and a callback was logged.")
 	r.Assume("exactly one side opens is checked per delivered link value, not one open per link for all time (DESIGN 8)")
 	r.Assume("AddHandler on an already released subscription is not exercised")
 	env, err := getEnv()
@@ -599,5 +1043,13 @@ func TestC29(t *testing.T) {
 		hs[i] = genC29(rng, i)
 	}
 	parallel(n, 16, func(i int) { runC29bc(r, env, pool, hs[i], jr) })
+	// (d) scripted overlap
+	rngO := r.Rand("c29ovl")
+	no := r.N(96, 1500)
+	ovs := make([]*c29ovl, no)
+	for i := range ovs {
+		ovs[i] = genC29ovl(rngO, i)
+	}
+	parallel(no, 16, func(i int) { runC29ovl(r, env, pool, ovs[i], jr) })
 	r.Extra("goroutine_snapshots", env.W.Taken())
 }
